@@ -197,7 +197,6 @@ func errKind(obs string) string {
 	return ""
 }
 
-
 // c02FillAndEmpty: "a bucket whose objects have all been deleted can be deleted" — fill a bucket
 // with a random subset of the keys, empty it through a random partition into single deletes and
 // multi-object deletes (in shuffled order), then head/list/delete the bucket and re-create it.
